@@ -9,6 +9,7 @@
 //!                         API on this window (both readers behave identically): obs = Ok:<F>:~
 //!   dv / dvf              the variant twins
 //!   hz seed               (not modelled) the theorems' oracle premises on the real BGZF writer / flate2 decoder
+//!   wk wkv wp wpv ix iv vf fw dw dwf dwv dwvf   see shared/c20_dispatch.rs (models NV.Util.Dispatch, NV.Util.Fill)
 //! Implementation-only oracles (the property itself, public generic builders only):
 //!   art fmt seed nrec hdr rdr      write through alignment::io::writer::Builder, read back through
 //!                                  alignment::io::reader::Builder::default() (autodetect) over reader `rdr`
@@ -22,6 +23,8 @@ mod align;
 mod common;
 #[path = "../shared/c20_detect.rs"]
 mod detect;
+#[path = "../shared/c20_dispatch.rs"]
+mod dispatch;
 #[path = "../shared/c20_variant.rs"]
 mod variant;
 
@@ -31,6 +34,7 @@ fn generate(rng: &mut Rng, tier: &str, w: &mut CaseWriter) {
     detect::generate(rng, tier, w);
     align::generate(rng, tier, w);
     variant::generate(rng, tier, w);
+    dispatch::generate(rng, tier, w);
 }
 
 fn run(c: &Case) -> Obs {
@@ -38,6 +42,7 @@ fn run(c: &Case) -> Obs {
         "da" | "daf" | "dv" | "dvf" | "hz" => detect::run(c),
         "art" | "atx" | "acv" | "aas" => align::run(c),
         "vrt" | "vtx" | "vcv" | "vcx" | "vas" => variant::run(c),
+        "wk" | "wkv" | "wp" | "wpv" | "ix" | "iv" | "vf" | "fw" | "dw" | "dwf" | "dwv" | "dwvf" => dispatch::run(c),
         _ => Obs::fail("-", "harness-unknown-kind", &c.kind),
     }
 }
